@@ -14,11 +14,15 @@ import (
 	"flag"
 	"fmt"
 	"sort"
+	"strings"
 	"sync"
+	"sync/atomic"
 	"time"
 
 	"verifharness/vh"
 )
+
+var hungRuns int32
 
 func main() {
 	nUnit := flag.Int("unit", 600, "unit cases (model-compared)")
@@ -31,7 +35,7 @@ func main() {
 	deadline = time.Duration(*dl) * time.Second
 	seed := vh.SeedFromEnv()
 	r := vh.NewRng(seed)
-	sum := vh.NewSummary("unit: codec (GoRpc x 5 formats, MsgpackSpecRpc) x ReaderBufferSize x WriterBufferSize in {0,1,7,64,4096} x request/response x 1..4 frames x chunk schedule (coalesced, single bytes, random, one frame plus the head of the next, mixed) x whole/cut stream; non-trivial = more than one frame, a fragmenting schedule or a cut; distinct by all of these. rpc: the same codecs and buffer grid x transport (net.Pipe, fragmenting/coalescing pipe in 4 modes, TCP loopback) x N in 1..64 concurrent calls (Echo struct, Add, Str, Fail) + Close protocol; distinct by (codec, transport, rbs, wbs, N). close: Close unblocks a pending header read, per codec x transport")
+	sum := vh.NewSummary("unit: codec (GoRpc x 5 formats, MsgpackSpecRpc) x ReaderBufferSize x WriterBufferSize in {0,1,7,64,4096} x request/response x 1..4 frames x chunk schedule (coalesced, single bytes, random, one frame plus the head of the next, mixed) x whole/cut stream; non-trivial = more than one frame, a fragmenting schedule or a cut; distinct by all of these. rpc: the same codecs and buffer grid x transport (net.Pipe, fragmenting/coalescing pipe in 4 modes, TCP loopback, the documented bufio-wrapped connection) x N in 1..64 concurrent calls (Echo struct, Add, Str, Fail) + Close protocol; distinct by (codec, transport, rbs, wbs, N). close: Close unblocks a pending header read, per codec x transport")
 	unitStream(r.Fork(), *nUnit, *cases, sum)
 
 	// ---- rpc grid ----
@@ -62,7 +66,18 @@ func main() {
 		go func() {
 			defer wg.Done()
 			for i := range ch {
+				// a hung run costs up to two deadlines: after a few of them the evidence is in
+				if atomic.LoadInt32(&hungRuns) >= 6 {
+					results[i] = rpcResult{cfg: cfgs[i], skipped: true}
+					continue
+				}
 				results[i] = runRPC(cfgs[i])
+				for _, f := range results[i].fails {
+					if strings.Contains(f.Class, "hang") || strings.HasPrefix(f.Class, "stuck") {
+						atomic.AddInt32(&hungRuns, 1)
+						break
+					}
+				}
 			}
 		}()
 	}
@@ -74,6 +89,10 @@ func main() {
 	totalCalls, coalesced := 0, 0
 	for _, res := range results {
 		c := res.cfg
+		if res.skipped {
+			sum.Dist["rpc.skipped-after-hangs"]++
+			continue
+		}
 		for _, f := range res.fails {
 			sum.FailC(f.Stream, f.Class, f.What, f.Case)
 		}
@@ -95,7 +114,7 @@ func main() {
 	// ---- close stream ----
 	var ccfgs []rpcConfig
 	for _, c := range codecNames {
-		for _, t := range []string{"pipe", "frag-coalesce", "tcp"} {
+		for _, t := range []string{"pipe", "frag-coalesce", "tcp", "bufio-coalesce"} {
 			for _, rbs := range []int{0, 64} {
 				ccfgs = append(ccfgs, rpcConfig{codec: c, transport: t, rbs: rbs, wbs: rbs, seed: rr.U64() >> 1})
 			}
